@@ -193,6 +193,11 @@ func verifyExtraData(block *types.Block) error {
 
 // verifyMiner verify the miner slot of deputy node
 func verifyMiner(header *types.Header, parent *types.Header, mineTimeout uint64, dm *deputynode.Manager) error {
+	// A block can't be earlier than its parent. And GetCorrectMiner panics if the time is too small to be a timestamp
+	if header.Time < parent.Time {
+		log.Error("Consensus verify fail: block is earlier than its parent", "time", header.Time, "parentTime", parent.Time)
+		return ErrVerifyHeaderFailed
+	}
 	expectedMiner, err := GetCorrectMiner(parent, int64(header.Time)*1000, int64(mineTimeout), dm)
 	if err != nil {
 		log.Error("Consensus verify fail: can't find correct miner", "block.Height", header.Height, "parent.MinerAddress", parent.MinerAddress, "block.MinerAddress", header.MinerAddress, "err", err)
